@@ -75,7 +75,7 @@ def theorem_names(prop_id):
         if m: cur.append(m.group(1)); continue
         m = re.match(r'\s*end\s+(\S+)', line)
         if m and cur and cur[-1] == m.group(1): cur.pop(); continue
-        m = re.match(r'\s*(?:protected\s+|private\s+)?theorem\s+([^\s:({\[]+)', line)
+        m = re.match(r'\s*(?:protected\s+)?theorem\s+([^\s:({\[]+)', line)      # `private theorem` = helper of an example, not an obligation
         if m:
             names.append('.'.join(cur + [m.group(1)]))
     return names
@@ -96,9 +96,9 @@ def axiom_audit(prop_id, names=None):
     except OSError: pass
     out = r.stdout + r.stderr
     res = {}
-    for m in re.finditer(r"'([^']+)' depends on axioms: \[([^\]]*)\]", out, re.S):
+    for m in re.finditer(r"^'(\S+)' depends on axioms: \[([^\]]*)\]", out, re.S | re.M):
         res[m.group(1)] = [a.strip() for a in m.group(2).replace('\n', ' ').split(',') if a.strip()]
-    for m in re.finditer(r"'([^']+)' does not depend on any axioms", out):
+    for m in re.finditer(r"^'(\S+)' does not depend on any axioms", out, re.M):
         res[m.group(1)] = []
     if r.returncode != 0 or len(res) != len(names):
         raise RuntimeError('axiom audit failed for %s:\n%s' % (prop_id, out[-3000:]))
